@@ -108,6 +108,9 @@ pub enum HCmd {
     /// mark a held stream ignore_for_keep_alive
     IgnoreStream(u64),
     Emit(ProbeOut),
+    /// flip the keep-alive flag from inside `poll` (like a real handler would)
+    SetKeepAlive(bool),
+    SetProtocols(Vec<String>),
     ReportRemote { added: bool, protocols: Vec<String> },
 }
 
@@ -124,6 +127,8 @@ pub struct HandlerShared {
     pub polls: u64,
     pub dropped: bool,
     pub outstanding_opens: HashSet<u64>,
+    /// tags of held streams marked ignore_for_keep_alive
+    pub ignored: HashSet<u64>,
     waker: Option<Waker>,
 }
 
@@ -210,8 +215,11 @@ impl ConnectionHandler for ProbeHandler {
                 HCmd::IgnoreStream(t) => {
                     if let Some(s) = h.streams.get_mut(&t) {
                         s.ignore_for_keep_alive();
+                        h.ignored.insert(t);
                     }
                 }
+                HCmd::SetKeepAlive(k) => h.keep_alive = k,
+                HCmd::SetProtocols(p) => h.protocols = p,
                 HCmd::Emit(o) => return Poll::Ready(ConnectionHandlerEvent::NotifyBehaviour(o)),
                 HCmd::ReportRemote { added, protocols } => {
                     let set: HashSet<StreamProtocol> = protocols.into_iter().filter_map(|p| StreamProtocol::try_from_owned(p).ok()).collect();
@@ -385,6 +393,7 @@ impl Probe {
             polls: 0,
             dropped: false,
             outstanding_opens: HashSet::new(),
+            ignored: HashSet::new(),
             waker: None,
         }));
         s.handlers.insert(conn, HandlerCtl(h.clone()));
